@@ -5,6 +5,7 @@ import MxModel.Proofs.ExecKeep
 import MxModel.Proofs.ExecInputsRun
 import MxModel.Proofs.ExecCertExamples
 import MxModel.Proofs.ExecRecalc
+import MxModel.Proofs.ExecCertRecalcOp
 /-!
 # C06 – a value edit discards exactly its dependents; inputs persist
 
@@ -324,7 +325,8 @@ example : (lookup (run gEnv {} [.eval (3, []), .eval (0, [.int 7]), .set (0, [.i
 `for trg in targets: trg[OBJ].get_value_from_key(trg[KEY])` (`St.recalcTargets`; a failing recomputation
 raises out of the loop, the remaining targets are not evaluated).  Regime of the value statements: `CI`
 states and `C02.WF` (`Ranked`, `NoCatch`, `Scoped`) – every reachable state of the thirteen-operation
-language. -/
+language, and of the fourteen-operation language with the recalculating assignment itself among the
+operations (`C02.reachable_ci_with_recalc`).  State-level two-run form: `recalc_state_is_lazy_run`. -/
 
 /-- **Recalculation = the lazy assignment, then evaluate the former leaf dependents** (the definition of
 the model, made explicit): an accepted assignment is `St.setValue` followed by the loop over
@@ -466,6 +468,52 @@ theorem recalc_touches_nothing_else (ho : StrictOrder lt) (hw : C02.WF env lt) {
     have := hnew m hmem (h.gi.heldNodes m (by rw [hl]; rfl)).2
     rw [hl1] at this; cases this
 
+/-- **The two-run form: the STATE after the recalculating assignment IS the state of the lazy run.**
+Run 1: the recalculating assignment `s.setValueRecalc env n v` (option on).  Run 2 (option off), from the
+same state: the lazy assignment `.setValue n v` followed by the evaluations `.eval t` of the former leaf
+dependents (`C02.expandOp`, a history of the thirteen-operation language `C02.Op` run by `C02.run`).  The two
+runs end in the same definitions and the same mechanism state – every held value, the inputs, the trace
+graph, the reference graph, the execution log.  Which evaluations: `s.startNodesFrom n`, taken BEFORE the
+assignment – all of them when no recomputation fails; those up to and including the failing one when one
+fails (the others are not evaluated by either run); none when the assignment is refused (`None` where it
+is not allowed: neither run changes anything).  With `recalc_values_are_lazy_values`: the values both runs
+hold are the denotations under the inputs of the lazy assignment. -/
+theorem recalc_state_is_lazy_run {s : St} (h : CI env lt s) (n : Node) (v : Val)
+    (hc : env.cached n.1 = true) (hn : env.alive n.1 = true) :
+    (env, (s.setValueRecalc env n v).1) = C02.run (env, s) (C02.expandOp (env, s) (.setValueRecalc n v)) ∧
+    (¬ (v = .none ∧ env.allowNone n.1 = false) →
+      C02.expandOp (env, s) (.setValueRecalc n v) =
+        .setValue n v :: (C02.evaluatedTargets env (s.startNodesFrom n) (s.setValue env n v).1).map C02.Op.eval) ∧
+    ((s.setValueRecalc env n v).2 = .ok →
+      C02.evaluatedTargets env (s.startNodesFrom n) (s.setValue env n v).1 = s.startNodesFrom n) ∧
+    (∀ t e tb, (s.setValueRecalc env n v).2 = .failed t e tb →
+      ∃ pre post, s.startNodesFrom n = pre ++ t :: post ∧
+        C02.evaluatedTargets env (s.startNodesFrom n) (s.setValue env n v).1 = pre ++ [t]) ∧
+    ((v = .none ∧ env.allowNone n.1 = false) →
+      C02.expandOp (env, s) (.setValueRecalc n v) = [.setValue n v] ∧
+      C02.run (env, s) [.setValue n v] = (env, s)) := by
+  have hg : (env.cached n.1 && env.alive n.1) = true := by rw [hc, hn]; rfl
+  refine ⟨?_, ?_, ?_, ?_, ?_⟩
+  · have := C02.stepR_eq_run (lt := lt) (env, s) (.setValueRecalc n v) h
+    simp only [C02.stepR, hg, if_true] at this
+    exact this
+  · intro hv
+    simp only [C02.expandOp, hg, if_true, setValue_accepted s n v hv]
+  · intro hok
+    by_cases hv : v = .none ∧ env.allowNone n.1 = false
+    · rw [setValueRecalc_refused s n v hv] at hok; cases hok
+    · rw [setValueRecalc_eq s n v hv] at hok
+      exact C02.evaluatedTargets_ok env _ _ hok
+  · intro t e tb hf
+    by_cases hv : v = .none ∧ env.allowNone n.1 = false
+    · rw [setValueRecalc_refused s n v hv] at hf; cases hf
+    · rw [setValueRecalc_eq s n v hv] at hf
+      exact C02.evaluatedTargets_failed env _ _ t e tb hf
+  · intro hv
+    refine ⟨?_, ?_⟩
+    · simp only [C02.expandOp, hg, if_true, setValue_refused s n v hv]
+    · simp only [C02.run, List.foldl_cons, List.foldl_nil, C02.step, hg, if_true, setValue_refused s n v hv]
+
 /-! Non-vacuity, with numbers.  `c0 = 1`, `c1 = c0() * 10`, `c2 = c1() + 1 if c0() < 5 else 0`,
 `c3 = c1() + 100`, `c4 = 7`, `c5 = 1 if c0() < 5 else raise ValueError`, `c6 = c0() + 100`.
 
@@ -572,5 +620,42 @@ example : kU.startNodesFrom (0, []) = [(5, []), (3, [])] ∧
     (kV.setValueRecalc kEnv (0, []) (.int 9)).2 = .failed (5, []) (.user kValue) [(5, [])] ∧
     lookup (kV.setValueRecalc kEnv (0, []) (.int 9)).1.data (6, []) = some (.int 109) ∧
     lookup (kV.setValueRecalc kEnv (0, []) (.int 9)).1.data (5, []) = none := by decide
+
+/-! The two-run form on the examples: on `kS` (both targets recomputed), on `kT`, on `kU` (the first target
+fails: one evaluation in the lazy run) and on `kV` (the second fails: two evaluations) the recalculating
+assignment and the lazy run end in the same state – compared as whole states: values, inputs, graphs, log. -/
+theorem kT_ci : CI kEnv idLt kT :=
+  evalTop_ci idLt_strict kEnv_wf.ranked kEnv_wf.noCatch _ rfl (CI.empty kEnv idLt)
+
+theorem kU_ci : CI kEnv idLt kU :=
+  evalTop_ci idLt_strict kEnv_wf.ranked kEnv_wf.noCatch _ rfl
+    (evalTop_ci idLt_strict kEnv_wf.ranked kEnv_wf.noCatch _ rfl (CI.empty kEnv idLt))
+
+theorem kV_ci : CI kEnv idLt kV :=
+  evalTop_ci idLt_strict kEnv_wf.ranked kEnv_wf.noCatch _ rfl
+    (evalTop_ci idLt_strict kEnv_wf.ranked kEnv_wf.noCatch _ rfl (CI.empty kEnv idLt))
+
+example : (kS.setValueRecalc kEnv (0, []) (.int 2)).1 =
+      (C02.run (kEnv, kS) [.setValue (0, []) (.int 2), .eval (2, []), .eval (3, [])]).2 ∧
+    (kT.setValueRecalc kEnv (0, []) (.int 9)).1 =
+      (C02.run (kEnv, kT) [.setValue (0, []) (.int 9), .eval (2, [])]).2 ∧
+    (kU.setValueRecalc kEnv (0, []) (.int 9)).1 =
+      (C02.run (kEnv, kU) [.setValue (0, []) (.int 9), .eval (5, [])]).2 ∧
+    (kV.setValueRecalc kEnv (0, []) (.int 9)).1 =
+      (C02.run (kEnv, kV) [.setValue (0, []) (.int 9), .eval (6, []), .eval (5, [])]).2 ∧
+    -- and the lazy assignment alone does NOT end there
+    (kS.setValueRecalc kEnv (0, []) (.int 2)).1 ≠ (C02.run (kEnv, kS) [.setValue (0, []) (.int 2)]).2 := by
+  decide
+
+-- the evaluations of the lazy run are the ones `expandOp` names
+example : C02.evaluatedTargets kEnv (kS.startNodesFrom (0, [])) (kS.setValue kEnv (0, []) (.int 2)).1 = [(2, []), (3, [])] ∧
+    C02.evaluatedTargets kEnv (kU.startNodesFrom (0, [])) (kU.setValue kEnv (0, []) (.int 9)).1 = [(5, [])] ∧
+    C02.evaluatedTargets kEnv (kV.startNodesFrom (0, [])) (kV.setValue kEnv (0, []) (.int 9)).1 = [(6, []), (5, [])] := by
+  decide
+
+-- the theorem applies to them (hypotheses met)
+example : (kEnv, (kU.setValueRecalc kEnv (0, []) (.int 9)).1) =
+    C02.run (kEnv, kU) (C02.expandOp (kEnv, kU) (.setValueRecalc (0, []) (.int 9))) :=
+  (recalc_state_is_lazy_run kU_ci (0, []) (.int 9) rfl rfl).1
 
 end MxModel.C06
